@@ -340,8 +340,19 @@ func (node *harness) NextAction(ctx context.Context, flow Flow) chan IAction {
 	})
 
 	response := make(chan chan IAction, 1)
-	node.mch <- nextHarnessActionMessage{flow: flow, response: response}
-	return <-response
+	// the run loop may be gone (cancelled): a token that arrives then must not wait
+	// for it; a nil channel leaves the token's flow to its own cancellation
+	select {
+	case node.mch <- nextHarnessActionMessage{flow: flow, response: response}:
+	case <-ctx.Done():
+		return nil
+	}
+	select {
+	case out := <-response:
+		return out
+	case <-ctx.Done():
+		return nil
+	}
 }
 
 func (node *harness) Element() schema.FlowNodeInterface { return node.activity.Element() }
